@@ -862,6 +862,10 @@ def no_result_dropped(chk, prog, rule, prefixes):
                     and obj.args[0].place is not None and any(
                         w in b.locals[obj.args[0].place.local]["ty"] for w in ("Stdout", "Stderr")):
                 continue        # `let _ = writeln!(io::stdout(), ..)`: a message that could not be printed
+            if k == "call" and callee.split("::")[-1] in ("remove_file", "remove_dir", "remove_dir_all", "send", "blocking_send",
+                                                          "try_send", "set_permissions", "close") \
+                    and not callee.startswith(("tough::", "tuftool::")):
+                continue        # best-effort clean-up / notification: ignoring it cannot turn a failed step into success
             chk.fail(rule, short_fn(b.path), "result-dropped:%s" % callee.split("::")[-1],
                      "the result of %s (%s) is dropped without being looked at: a failure of that step goes unnoticed and "
                      "the enclosing operation reports success" % (callee, ty[:80]), site_of(obj.sp))
